@@ -1652,6 +1652,10 @@ CORPUS += [
     ('2000-01-01 *\n    Assets:Cash 10 CAD@@5 USD\n', [_RM(_P0, 'raw_currency'), _RM(_P0, 'raw_number')]),
     ('2000-01-01 * "p""n"#t\n  Assets:A\n', [_RM(_D0, 'raw_payee')]),
     ('2000-01-01 balance Assets:A 1~0.1 USD\n', [_RM(_D0, 'raw_tolerance')]),
+    ('2000-01-01 *\n    Assets:Cash  10 + 2CAD\n', [_RM(_P0, 'raw_number')]),
+    ('2000-01-01 *\n    Assets:Cash  1 USD {2 EUR} @ 3 EUR;note\n', [_RM(_P0, 'raw_price')]),
+    ('2000-01-01 *\n    Assets:Cash  1 USD {2 EUR, 2000-01-01}@ 3 EUR\n', [_RM(_P0, 'raw_cost')]),
+    ('2000-01-01 balance Assets:A 1 ~ 0.1 + 0.2USD\n', [_RM(_D0, 'raw_tolerance')]),
 ]
 # views over MIXED raw lists (other-kind elements / standalone comments between the addressed elements): slice deletes
 # and assignments, remove / discard / index / count / in with a value that also occurs as the other kind
